@@ -55,3 +55,15 @@ U("c07_descend_pair_emphasis", ["C07"], "h_pair_emphasis", ["C07/descend.c"], ["
   cbmc_flags=["--unwind", "4"], kind="bounded", bounds={"shape": "2 siblings, child chains of 2 and 1 tokens"},
   functions=["pair_emphasis_tokens"], callees={"recursive call": "contract (requires: argument is the head of a child chain)"}, min_obligations=10,
   assumptions=["token types symbolic, mates NULL; shape fixed (2 siblings with children)"])
+
+# ---- the other half of the block parser's cycle: recursive_parse_* call mmd_parse_token_chain without touching the depth counter
+for _f, _repl in (("recursive_parse_list_item", ["token_copy", "token_remove_first_child", "deindent_block"]),
+                  ("recursive_parse_indent", ["deindent_block", "strip_leading_whitespace"]),
+                  ("recursive_parse_blockquote", ["strip_quote_markers_from_block"])):
+    U("c07_cycle_" + _f, ["C07"], "h_rp", ["C07/rparse.c"], ["mmd.c"], enforce=_f, replace=["mmd_parse_token_chain"] + _repl, lib=(), kind="proof",
+      defines=["-DI18N_DISABLED=1", "-DC07_RP=" + _f], min_obligations=10, timeout=300, cost=15,
+      functions=[_f],
+      callees={"mmd_parse_token_chain": "contract proved by c07_guard_parse_chain: requires depth <= limit (checked at the call site), restores depth, ghost call counter + 1",
+               ", ".join(_repl): "contracts assigning token fields only (C15's subject)"},
+      assumptions=["entered with 1 <= e->recurse_depth <= kMaxParseRecursiveDepth: the state in which lemon's Parse runs its actions (Parse's contract in c07_guard_parse_chain)",
+                   "block shape: block -> line -> two tokens (the functions dereference block->child->child)"])
